@@ -337,6 +337,8 @@ static void hmac_case(const args_t *a, long idx, size_t keylen, size_t mlen)
     if (keylen) fill_class(&r, key, keylen, bc == BC_COUNT ? BC_RANDOM : bc);
     in = gb_place(&gIN, mlen, (int)((idx / 3) % 3), (unsigned)((idx >> 3) & 7), nullmode, 0);
     if (mlen) fill_class(&r, in, mlen, bc);
+    /* the message may legally be (or lie inside) the key buffer: both are inputs */
+    if (mlen && mlen <= keylen && idx % 4 == 2) in = key + (keylen - mlen);
     gb_readonly(&gKEY); gb_readonly(&gIN);
     out = gb_place(&gOUT, 32, PL_END, 0, 0, (uint8_t)rnd64(&r));
     MSAN_POISON(out, 32);
